@@ -282,13 +282,27 @@ def meta_read_rule(ck, P):
                  "each metadata name arm (plain / .gz / .br) merges the parsed member, decoded with the arm's own compression",
                  "metadata arms %s: a stored TileJSON is dropped or decoded with the wrong compression" % {k_: ("ok" if v else "BROKEN") for k_, v in arms_seen.items()}, ir.loc(b))
         if "tar::" in suffix:
-            rd = [y for y in ir.walk_nodes(b["body"]) if y.get("k") == "closure" and ir.contains(y["body"], lambda z: z.get("k") == "mcall" and z.get("name") == "read_to_end")]
-            okr = False
-            if len(rd) == 1:
-                call = [z for z in ir.walk_nodes(rd[0]["body"]) if z.get("k") == "mcall" and z.get("name") == "read_to_end"][0]
+            # the reading unit: a closure of open_path, or a (nested / private) function it calls, that contains the read_to_end call
+            def has_rte(x):
+                return ir.contains(x, lambda z: z.get("k") == "mcall" and z.get("name") == "read_to_end")
+            rd = [y["body"] for y in ir.walk_nodes(b["body"]) if y.get("k") == "closure" and "Coroutine" not in y.get("ck", "") and has_rte(y["body"])]
+            rd = [y for y in rd if not any(o is not y and ir.contains(o, lambda z: z is y) for o in rd)]      # innermost closures only
+            seen_q = set()
+            for y in ir.walk_nodes(b["body"]):
+                if y.get("k") in ("call", "mcall"):
+                    q_ = y.get("rvq") or y.get("q")
+                    cb = P.fn(q_) if q_ and P.is_workspace(q_) and q_ not in seen_q else None
+                    seen_q.add(q_)
+                    if cb is not None and cb is not b and has_rte(cb["body"]):
+                        rd.append(cb["body"])
+            if not rd and has_rte(b["body"]):
+                rd = [b["body"]]
+            okr = bool(rd)
+            for unit in rd:
+                call = [z for z in ir.walk_nodes(unit) if z.get("k") == "mcall" and z.get("name") == "read_to_end"][0]
                 bh = next((z["hid"] for z in ir.walk_nodes(call["a"][0]) if z.get("k") == "path" and z.get("r") == "local"), None)
-                tail = [z for z in ir.walk_nodes(rd[0]["body"]) if z.get("k") == "call" and (z.get("q") or "").endswith(("Blob::from", "From::from")) and z.get("a") and ir.local_hid(z["a"][0]) == bh]
-                okr = bh is not None and bool(tail)
+                tail = [z for z in ir.walk_nodes(unit) if z.get("k") == "call" and (z.get("q") or "").endswith(("Blob::from", "From::from")) and z.get("a") and ir.local_hid(z["a"][0]) == bh]
+                okr = okr and bh is not None and bool(tail)
             ck.check(okr, "R-META-READ", b["q"] + "|read", "the member's bytes are read to the end into the buffer that becomes the blob", "the tar metadata helper does not read the member into the blob it returns", ir.loc(b))
 
 
